@@ -49,7 +49,28 @@ def main():
                          env=env)
             caught = []
             rcs = []
-            for s in seeds.split(","):
+            # seeded/<name>/check_with: the check of another property that
+            # decides the clause this change breaks (e.g. the push clause of
+            # C08 is decided by C06's harness)
+            cw = os.path.join(d, "check_with")
+            props = [prop] + (open(cw).read().split() if os.path.exists(cw)
+                              else [])
+            for prop_ in props[1:]:
+                e2 = dict(os.environ, VERIF_REPO=w, VERIF_SEED="0",
+                          VERIF_MAX_REPORTS="2", VERIF_NO_EVIDENCE="1")
+                ck = sh(f"cd {VERIF} && bin/check {prop_}", env=e2)
+                sigs = re.findall(r"signature: (\S+)\s+\((\d+) of (\d+) runs",
+                                  ck.stdout)
+                caught.append({"VERIF_SEED": 0, "check": prop_,
+                               "exit": ck.returncode,
+                               "signatures": [
+                                   {"sig": a, "runs": int(b), "of": int(c)}
+                                   for a, b, c in sigs]})
+                if ck.returncode == 1:
+                    rcs.append(1)
+            if rcs:
+                seeds = ""
+            for s in [x for x in seeds.split(",") if x]:
                 e2 = dict(os.environ, VERIF_REPO=w, VERIF_SEED=s,
                           VERIF_MAX_REPORTS="2", VERIF_NO_EVIDENCE="1")
                 t0 = time.time()
